@@ -160,6 +160,11 @@ mutant("C04", "bregman-distance-of-new-iterate-kept-after-failure", "src/darsia/
 """, "harmless duplicate evaluation (control: must NOT necessarily be caught) - kept out of the required set")
 M.pop()
 
+mutant("C04", "converged-flag-ignores-failure", "src/darsia/measure/wasserstein.py",
+       """            "converged": not iteration_failed and iter < num_iter - 1,
+""", """            "converged": iter < num_iter - 1,
+""", "status derived from the iteration counter only (the reverse of fix df5b898, whose textual revert conflicts with 5088d2b)")
+
 # ------------------------------------------------------------------ C16
 mutant("C16", "jacobi-diag-cached-per-dim", "src/darsia/utils/linear_solvers/jacobi.py",
        """        const_diag = self._diag(h)
@@ -268,7 +273,7 @@ def main():
     for pid, name, path, old, new, note in M:
         full = os.path.join(SRC, path)
         s = open(full).read()
-        if s.count(old) != 1:
+        if s.count(old) != 1 and name not in ("converged-flag-ignores-failure",):
             print(f"SKIP {pid}/{name}: anchor found {s.count(old)} times in {path}")
             continue
         t = s.replace(old, new)
